@@ -80,6 +80,8 @@ type VC struct {
 	footBusy  map[string]bool
 	rng       map[string][2]*big.Int
 	tagTypes  map[string]types.Type
+	inBinder  int
+	lenTerms  []string
 }
 
 func NewVC(eng *Engine, fn *ssa.Function) *VC {
@@ -127,7 +129,7 @@ func (vc *VC) fresh(prefix, sort string) string {
 
 // define names a term (keeps scripts linear in size).
 func (vc *VC) define(prefix, sort, term string) string {
-	if len(term) < 48 {
+	if len(term) < 48 || vc.inBinder > 0 {
 		return term
 	}
 	n := vc.freshName(prefix)
@@ -352,8 +354,11 @@ func (vc *VC) load(st *State, p Ptr, t types.Type) Val {
 		i++
 	}
 	f := and(facts...)
-	if f != "true" {
+	if f != "true" && vc.inBinder == 0 {
 		vc.assert(f)
+	}
+	if sv, ok := v.(*SliceV); ok && vc.inBinder == 0 {
+		vc.lenTerms = append(vc.lenTerms, sv.Cap)
 	}
 	return v
 }
@@ -858,13 +863,15 @@ func (vc *VC) mapLookup(st *State, ref string, m *types.Map, key Val) (Val, stri
 		ts = append(ts, vc.define("mv", l.Sort, ite(dom, sel2(h, ref, k), zeroTerm(l))))
 	}
 	v := build(m.Elem(), &ts)
-	vc.assert(vc.wfVal(m.Elem(), v))
-	i := 0
-	for _, l := range leaves(m.Elem()) {
-		if l.Sort == "Int" && (l.Typ == nil || isRefType(l.Typ)) {
-			vc.assert(lt(flatT(m.Elem(), v)[i], vc.allocOf(st)))
+	if vc.inBinder == 0 {
+		vc.assert(vc.wfVal(m.Elem(), v))
+		i := 0
+		for _, l := range leaves(m.Elem()) {
+			if l.Sort == "Int" && (l.Typ == nil || isRefType(l.Typ)) {
+				vc.assert(lt(flatT(m.Elem(), v)[i], vc.allocOf(st)))
+			}
+			i++
 		}
-		i++
 	}
 	return v, dom
 }
@@ -872,7 +879,9 @@ func (vc *VC) mapLookup(st *State, ref string, m *types.Map, key Val) (Val, stri
 func (vc *VC) mapLen(st *State, ref string, m *types.Map) string {
 	h := vc.heap(st, "Ml|"+canon(m), arraySort("Int", "Int"))
 	t := sel(h, ref)
-	vc.assert(le("0", t))
+	if vc.inBinder == 0 {
+		vc.assert(le("0", t))
+	}
 	return t
 }
 
